@@ -430,6 +430,11 @@ def gen_case(rng, quick=True):
         terms.insert(rng.randint(0, len(terms)), [[], gen_coef(rng, dyadic)])
     if rng.random() < 0.04:
         terms = [t for t in terms if not t[0]]  # empty or constant operator
+    bare = False
+    if rng.random() < 0.08:
+        # the observable passed as a bare PauliLabel (an Estimatable; the identity label included)
+        terms = [[[] if rng.random() < 0.4 else [list(x) for x in gen_pauli(rng, n)], 1.0]]
+        bare = True
     fk = rng.choice(["bitwise", "individual", "list", "list", "list"])
     fac = {"kind": fk}
     paulis = [tuple(map(tuple, t[0])) for t in terms if t[0]]
@@ -468,7 +473,7 @@ def gen_case(rng, quick=True):
         total = max(total, sum(al["shots"]))
     sk = "ideal" if rng.random() < 0.8 else rng.choice(["counts", "counts", "short", "empty"])
     return {"n": n, "state": gen_state(rng, n, dyadic), "dyadic": dyadic, "op": [[t[0], [complex(t[1]).real, complex(t[1]).imag]] for t in terms],
-            "factory": fac, "alloc": al, "total": total, "sampler": sk, "sseed": rng.randint(0, 10**6)}
+            "factory": fac, "alloc": al, "total": total, "sampler": sk, "sseed": rng.randint(0, 10**6), "bare": bare}
 
 
 F2_CASE = {
@@ -527,6 +532,9 @@ def build_and_run(spec, route="direct"):
     op = Operator()
     for p, (re, im) in spec["op"]:
         op[lab(p)] = complex(re, im) if im != 0 else re
+    op_arg = op
+    if spec.get("bare") and len(spec["op"]) == 1:
+        op_arg = lab(spec["op"][0][0])  # the bare label instead of Operator({label: 1.0})
     rec = Rec()
     fk = spec["factory"]["kind"]
 
@@ -610,11 +618,11 @@ def build_and_run(spec, route="direct"):
     objs = {"state": state, "op": op, "factory": factory, "allocator": allocator, "sampler": sampler, "circ": circ}
     try:
         if route == "direct":
-            est = sampling_estimate(op, state, spec["total"], sampler, factory, allocator, prep)
+            est = sampling_estimate(op_arg, state, spec["total"], sampler, factory, allocator, prep)
         else:
             from quri_parts.core.estimator.sampling import create_sampling_estimator
 
-            est = create_sampling_estimator(spec["total"], sampler, factory, allocator)(op, state)
+            est = create_sampling_estimator(spec["total"], sampler, factory, allocator)(op_arg, state)
         v = est.value
         return "ok", complex(v), rec, objs
     except Exception as e:  # noqa: BLE001 — behaviour of the real code
@@ -652,6 +660,11 @@ def analyse(ctx: Ctx, spec, mode, reqs1, pend):
         ctx.disagree("estimate:constant-operator-sampled", spec, "measurement factory called", "constant / empty operator returns without sampling")
     if ms is None:
         # constant / empty operator (or the factory was never reached)
+        if not sampled and st == "ok":
+            want_c = complex(op.get(PAULI_IDENTITY, 0.0))
+            if abs(complex(val) - want_c) > 1e-12 * (1 + abs(want_c)):
+                ctx.witness("sampling_estimate.value", "constant / identity-only observable: the estimate is not the identity coefficient", spec,
+                            {"real": str(val), "demanded": str(want_c)})
         info["groups"] = []
         info["shots_field"] = ""
         pend.append(info)
